@@ -200,8 +200,10 @@ Theorem C02_gf_lib_ok : RxSpec.gf_ok GroupFnDefs.gf_lib.  Proof. exact GroupFnCo
 Print Assumptions C02_gf_lib_ok.
 
 (* ---- the public application calls (Model/ApiDefs.v): the run-level statements over extended histories (Spec/ApiRxSpec.v) ----
-   Every call except Set/Extend SingleFrame/FastPacket Messages (ASetPgnList, excluded by keeps_lists) leaves the reassembly table, the PGN
-   configuration and the known-message switch alone and delivers nothing; SetMode is included. *)
+   Every call except Set/Extend SingleFrame/FastPacket Messages (ASetPgnList, excluded by keeps_lists) leaves the reassembly table and the
+   PGN configuration alone and delivers nothing; SetMode, ExtendTransmitMessages, ExtendReceiveMessages and SetProductInformation are
+   included everywhere.  SetHandleOnlyKnownMessages (ASetOnlyKnown) is the one call that changes the known-message switch: safety
+   (no corruption, 223 bytes) includes it, completeness excludes it (keeps_filter) and C02_api_rx_complete_run_lists_refuted shows why. *)
 From N2kV Require Import Model.ApiDefs Spec.ApiRxSpec Proofs.ApiRxProofs Proofs.ApiRxProofsB.
 Theorem C02_api_table_kept : api_table_kept_stmt.  Proof. exact api_table_kept. Qed.
 Print Assumptions C02_api_table_kept.
@@ -214,24 +216,45 @@ Print Assumptions C02_api_rx_complete_run.
 (* the exclusion is necessary: with ASetPgnList in the history the start configuration does not classify the deliveries *)
 Theorem C02_api_rx_no_corruption_all_refuted : ~ api_rx_no_corruption_all_stmt.  Proof. exact api_rx_no_corruption_all_refuted. Qed.
 Print Assumptions C02_api_rx_no_corruption_all_refuted.
+(* and so is the exclusion of ASetOnlyKnown from completeness: the switch turned on in the middle of a proprietary fast-packet run *)
+Theorem C02_api_rx_complete_run_lists_refuted : ~ api_rx_complete_run_lists_stmt.  Proof. exact api_rx_complete_run_lists_refuted. Qed.
+Print Assumptions C02_api_rx_complete_run_lists_refuted.
 
 (* non-vacuity: a ListenAndNode node; sender 30's three frames spread over three polls, sender 31 interleaved, 150 ms pass, and between the
-   frames the application calls SendProductInformation, SetMode, SendHeartbeat(force), Restart, SetDeviceInformationInstances and
-   SendIsoAddressClaim: the hypotheses of the lifted theorems hold and exactly sender 30's message is handed over *)
+   frames the application calls SendProductInformation, SetMode, SendHeartbeat(force), ExtendTransmitMessages, ExtendReceiveMessages,
+   SetProductInformation, Restart, SetDeviceInformationInstances and SendIsoAddressClaim: the hypotheses of the lifted theorems hold and exactly sender 30's message is handed over *)
 Definition ex_api_node : rnode := with_open (cold_node true 2 5000 40 5 no_lists [mk_dev true 22 1 []] [[]] ex_cfg) 3 0.
 Definition ex_xhist : list xop :=
   [XBase (RRx ex_a0); XApi (ASendProd 0); XBase (RRx ex_b0); XBase RPoll; XApi (ASetMode 2 40); XBase (RBase (OTick 150)); XBase (RRx ex_a1);
-   XApi (ASendHeartbeatAll true); XBase RPoll; XApi ARestart; XApi (ASetInstances 0 1 2 3); XBase (RRx ex_a2); XApi (ASendClaim 255 (-1) 0); XBase RPoll].
+   XApi (ASendHeartbeatAll true); XApi (ASetTxList 0 [129029; 0]); XApi (ASetRxList 0 [127489; 0]);
+   XApi (ASetProductInformation [49] 666 [65] [66] [67] 2 65535 255); XBase RPoll; XApi ARestart; XApi (ASetInstances 0 1 2 3); XBase (RRx ex_a2); XApi (ASendClaim 255 (-1) 0); XBase RPoll].
 Example C02_api_nonvacuous :
-  rx_clean ex_api_node /\ gf_ok gf_none /\ keeps_lists ex_xhist /\
+  rx_clean ex_api_node /\ gf_ok gf_none /\ keeps_lists ex_xhist /\ keeps_filter ex_xhist /\
   fp_dlv (concat (snd (xrun gf_none ex_api_node ex_xhist))) =
     [ {| m_pri := 3; m_pgn := 129029; m_src := 30; m_dst := 255; m_data := [1; 2; 3; 4; 5; 6; 7; 8; 9; 10; 11; 12; 13; 14; 15; 16; 17; 18; 19; 20]; m_tp := false |} ] /\
   (* the calls do send: product information, forced heartbeat, two address claims *)
   length (flat_map (fun e => match e with EvTx _ _ _ _ => [e] | _ => [] end) (concat (snd (xrun gf_none ex_api_node ex_xhist)))) = 4%nat.
 Proof.
-  split; [split; [reflexivity | repeat constructor] |]. split; [intros r s; repeat split |]. split; [reflexivity|]. split; vm_compute; reflexivity.
+  split; [split; [reflexivity | repeat constructor] |]. split; [intros r s; repeat split |]. split; [reflexivity|]. split; [reflexivity|]. split; vm_compute; reflexivity.
 Qed.
 Print Assumptions C02_api_nonvacuous.
+
+(* safety covers SetHandleOnlyKnownMessages: a history that turns the switch on between the two frames of a proprietary fast-packet run
+   (the history of C02_api_rx_complete_run_lists_refuted) and off again before a second, complete run of the same sender - the first run
+   is lost, the second is delivered, and the safety theorem applies (keeps_lists holds, keeps_filter does not) *)
+Definition ex_switch_hist : list xop :=
+  switch_ops ++ [XApi (ASetOnlyKnown false); XBase (RRx (mkf switch_id [32; 9; 1; 2; 3; 4; 5; 6])); XBase (RRx (mkf switch_id [33; 7; 8; 9; 255; 255; 255; 255])); XBase RPoll].
+Example C02_api_nonvacuous_switch :
+  rx_clean setlist_node /\ keeps_lists ex_switch_hist /\ forallb xop_keeps_filter ex_switch_hist = false /\
+  fp_dlv (concat (snd (xrun gf_none setlist_node ex_switch_hist))) =
+    [ {| m_pri := 3; m_pgn := 130816; m_src := 30; m_dst := 255; m_data := [1; 2; 3; 4; 5; 6; 7; 8; 9]; m_tp := false |} ] /\
+  exists idxs, Forall2 (justified (n_pgn (rn setlist_node)) (xframes_of ex_switch_hist)) (fp_dlv (concat (snd (xrun gf_none setlist_node ex_switch_hist)))) idxs /\
+               NoDup (concat idxs).
+Proof.
+  split; [split; [reflexivity | repeat constructor] |]. split; [reflexivity|]. split; [reflexivity|]. split; [vm_compute; reflexivity|].
+  apply (C02_api_rx_no_corruption gf_none setlist_node ex_switch_hist); [intros r s; repeat split|split; [reflexivity | repeat constructor]|reflexivity].
+Qed.
+Print Assumptions C02_api_nonvacuous_switch.
 
 (* the hypotheses of the lifted completeness theorem are satisfiable: the same history *)
 Example C02_api_rx_complete_run_applies :
@@ -240,7 +263,7 @@ Proof.
   apply (C02_api_rx_complete_run gf_none ex_api_node ex_xhist [] ex_a0 [ex_b0; ex_a1; ex_a2] [] [ex_a1; ex_a2] [(129029, 30, 255); (127489, 31, 255)]).
   - intros r s; repeat split.
   - split; [reflexivity|repeat constructor].
-  - intros k. do 15 (destruct k as [|k]; [vm_compute; reflexivity|]). vm_compute. reflexivity.
+  - intros k. do 18 (destruct k as [|k]; [vm_compute; reflexivity|]). vm_compute. reflexivity.
   - reflexivity.
   - vm_compute. discriminate.
   - intros f Hin. cbn in Hin. repeat (destruct Hin as [<-|Hin]; [vm_compute; auto|]). destruct Hin.
